@@ -46,6 +46,9 @@ type c17Case struct {
 	Sep           string   `json:"separator"`
 	Pct           int      `json:"pct"`
 	MasterRO      bool     `json:"master_ro"`
+	// MasterNoSuper (with MasterRO): read_only=1 but super_read_only=0 (what critical disk usage with
+	// keep_super_writable_on_critical_disk_usage, or an operator, leaves): the master is not writable
+	MasterNoSuper bool `json:"master_read_only_without_super,omitempty"`
 	MasterOffline bool     `json:"master_offline"`
 	MasterMarked  bool     `json:"master_marked"`
 	Reps          []c17Rep `json:"replicas"`
@@ -59,6 +62,11 @@ func (c c17Case) String() string {
 	var rs []string
 	for _, x := range c.Reps {
 		rs = append(rs, x.String())
+	}
+	if c.MasterNoSuper {
+		cc := c
+		cc.MasterNoSuper = false
+		return cc.String() + " master-read-only-without-super"
 	}
 	return fmt.Sprintf("sep=%q pct=%d masterRO=%v masterOffline=%v marked=%v order=%d adv=%v handover=%d reps=[%s]", c.Sep, c.Pct, c.MasterRO, c.MasterOffline, c.MasterMarked, c.Perm, c.Advance, c.Handover, strings.Join(rs, " "))
 }
@@ -98,7 +106,7 @@ func c17Run(r *vt.Run, c c17Case) {
 		w := h.W
 		w.LogStmts = r.Replay != nil
 		m := w.Servers[c17Master]
-		m.ReadOnly, m.SuperRO = c.MasterRO, c.MasterRO
+		m.ReadOnly, m.SuperRO = c.MasterRO, c.MasterRO && !c.MasterNoSuper
 		m.Offline = c.MasterOffline
 		if c.MasterMarked {
 			w.ZK.Put(vns+"/recovery/"+c17Master, "null") // what the daemon itself writes (json null)
@@ -308,6 +316,10 @@ func checkC17(r *vt.Run) {
 							for _, mm := range [][2]bool{{false, false}, {true, false}, {true, true}} {
 								run(c17Case{Sep: "-", Pct: pct, MasterRO: mro, MasterOffline: mm[0], MasterMarked: mm[1],
 									Reps: []c17Rep{{"az1-r1", off, lag, repl, rs}}})
+								if mro {
+									run(c17Case{Sep: "-", Pct: pct, MasterRO: true, MasterNoSuper: true, MasterOffline: mm[0], MasterMarked: mm[1],
+										Reps: []c17Rep{{"az1-r1", off, lag, repl, rs}}})
+								}
 							}
 						}
 					}
